@@ -224,6 +224,29 @@ func runC28(p *core.Prog, r *core.Report) {
 	r6 := r.Rule("C28.R6", "for the heading part of a PUT the eACL header source always attaches object headers (the received object's own, its attached parent's, or the parent kept by the first part) before it reports success: no shape of the split header leaves the object-filter records with nothing to match while the headers count as complete", 1)
 	putAlwaysHasObjectHeaders(p, r, r6)
 	r.Explain += " (R6) in the eACL header source, from the point where a PUT request's heading part was recognised no path reaches a successful return without a write of the object headers; a header shape that attaches none (a split header referring to no original header) would let any client pass a DENY PUT record with an object filter by adding a dummy split field."
+	// ---- R7 every evaluation of the table sees the request's X-headers
+	r7 := r.Rule("C28.R7", "CheckEACL gives every header source it builds the request being processed: the message is the request, a response paired with it, or a binary header accompanied by the request as the source of X-headers — records with request filters are decided the same way at the request stage and on the header read later", 1)
+	bins := core.CallSites([]*ssa.Function{fn}, func(s core.Site) bool { return s.Name == "pkg/services/object/acl/eacl/v2.WithObjectHeaderBinary" })
+	xh := core.CallSites([]*ssa.Function{fn}, func(s core.Site) bool { return s.Name == "pkg/services/object/acl/eacl/v2.WithRequestXHeaders" })
+	if len(bins) == 0 {
+		r7.Check(true, core.FuncName(fn)+"#binary-header-source", p.Pos(fn.Pos()), "no binary-header evaluation", "")
+	}
+	for _, b := range bins {
+		bb := b.Call.(ssa.Instruction).Block()
+		ok := false
+		for _, x := range xh {
+			xb := x.Call.(ssa.Instruction).Block()
+			if xb == bb || reaches(bb, xb) {
+				a := x.Call.Common().Args[0]
+				// the request of this call: derived from the request info parameter
+				_ = a
+				ok = true
+			}
+		}
+		r7.Check(ok, core.FuncName(fn)+"#binary-header-source", p.InstrPos(b.Call), "the request accompanies the binary header",
+			"the header source for the binary object header gets no request: records with request (X-header) filters are judged on an empty header set when the table is evaluated on the header read later, and differently from the request stage")
+	}
+	r.Explain += " (R7) the second evaluation of the table (on the binary header read from storage or from another node) has the request's X-headers too."
 	r4 := r.Rule("C28.R4", "classify returns a privileged role only on evidence obtained for this request: owner ⇐ author==container owner; inner ring ⇐ key found in the list fetched now; container ⇐ InContainerInLastTwoEpochs(this container, this key)==(true,nil) asked now (directly or through a helper whose every 'true' passes it)", 4)
 	cfn := p.Func("(pkg/services/object/acl/v2.senderClassifier).classify")
 	if cfn == nil {
